@@ -186,6 +186,11 @@ class SMach(VecMachine):
                     return 0
         if k == 'Call' and n == 'TranscodeToLocalCodePage':
             raise Unsupported('local code page branch')
+        if k == 'Call' and c.get('usr'):
+            # a helper of the file that is not a member (a test moved out of write / flushFullBuffer) is followed
+            a = w.facts.ast(c['usr'])
+            if a is not None and a.get('body') is not None and not a.get('cls') and a['file'].endswith('PlatformSupport/XalanOutputStream.cpp'):
+                return self.call_this(a, c)
         return VecMachine.hook(self, m, c)
 
 
